@@ -1,7 +1,7 @@
 package c09
 
 // Value schema of the C09 check, its generators and the equality relation
-// ("equal value": nil == empty for slices and maps, floats compared with ==).
+// ("equal value": floats compared with ==; nil and empty slices/maps are told apart except for the GenCode schema).
 
 import (
 	"fmt"
@@ -473,7 +473,11 @@ func genMeta(t *rapid.T) *record.Meta {
 
 // diff returns "" when a and b are equal values, otherwise the path and kind
 // of the first difference (deterministic: map keys are visited in sorted order).
-// nil and empty slices/maps are equal (stated tolerance); floats compare with ==.
+// nil and empty slices/maps are equal for the GenCode schema only (see strictNil); floats compare with ==.
+// strictNil: nil and empty slices/maps are told apart. JSON, CBOR, MsgPack and YAML keep the difference (null vs
+// [] / {}); GenCode does not encode it, so values of the GenCode schema are compared with the tolerance.
+var strictNil bool
+
 func diff(path string, a, b reflect.Value) string {
 	if a.Type() != b.Type() {
 		return fmt.Sprintf("%s: type %s vs %s", path, a.Type(), b.Type())
@@ -498,6 +502,9 @@ func diff(path string, a, b reflect.Value) string {
 		}
 		return ""
 	case reflect.Slice:
+		if strictNil && a.IsNil() != b.IsNil() {
+			return fmt.Sprintf("%s: nil slice vs empty slice (dumped nil=%v, loaded nil=%v)", path, a.IsNil(), b.IsNil())
+		}
 		if a.Len() != b.Len() {
 			return fmt.Sprintf("%s: length %d vs %d", path, a.Len(), b.Len())
 		}
@@ -508,6 +515,9 @@ func diff(path string, a, b reflect.Value) string {
 		}
 		return ""
 	case reflect.Map:
+		if strictNil && a.IsNil() != b.IsNil() {
+			return fmt.Sprintf("%s: nil map vs empty map (dumped nil=%v, loaded nil=%v)", path, a.IsNil(), b.IsNil())
+		}
 		if a.Len() != b.Len() {
 			return fmt.Sprintf("%s: map size %d vs %d", path, a.Len(), b.Len())
 		}
@@ -543,6 +553,13 @@ func diff(path string, a, b reflect.Value) string {
 
 // diffValues compares two values of the schema (pointers to Subject, GenSubject, record.Meta).
 func diffValues(want, got any) string {
+	switch want.(type) {
+	case *Subject, *Tail:
+		strictNil = true
+	default:
+		strictNil = false
+	}
+	defer func() { strictNil = false }()
 	if d := diff("v", reflect.ValueOf(want), reflect.ValueOf(got)); d != "" {
 		return d
 	}
